@@ -174,7 +174,7 @@ func TestC05(t *testing.T) {
 	h := hh.Start(t, "C05",
 		"cases = schemas with >=1 catching primitive (struct field, slice element, behind pointer, nested) and inputs perturbed at and around them; non-trivial = a catching node catches while another node has a violation, or >=2 catching-node visits of which some but not all catch, or a catching slice element is followed by another element; distinct = FNV-1a of the case JSON",
 		"(a) direct oracle from the specification: no issue at a catching node's path, destination equals the catch value iff the node's own pipeline fails; (b) metamorphic: the same schema with every Catch removed must report the same issues away from the catching nodes and leave the same values away from them",
-		"no PostTransforms (their gating is global by documentation); tests on catching nodes carry no IssuePath; struct/slice level tests are data-independent so that the catch-free twin is comparable")
+		"no PostTransforms in the twin comparison (their gating is global by documentation; the sub-checks with-transforms-* use the direct oracle only: non-trivial = a catch happened, the execution succeeded and PostTransforms exist); tests on catching nodes carry no IssuePath; struct/slice level tests are data-independent so that the catch-free twin is comparable")
 	defer h.Finish()
 	reps := h.N(3, 8)
 	for _, mode := range []string{"parse", "validate"} {
@@ -203,5 +203,29 @@ func TestC05(t *testing.T) {
 			return c
 		}
 		hh.Sub(h, mode, h.N(30000, 35000), gen, propC05(reps))
+		// "no effect beyond its node" with PostTransforms around: a catch is not an issue, so the PostTransforms of the
+		// node itself, of later fields and of the enclosing structs and slices run exactly as the specification says
+		// (direct oracle: issues and, on success, the whole destination)
+		tcfg := cfg
+		tcfg.PPost, tcfg.PTestSat, tcfg.PJunk, tcfg.PAbsent = 0.25, 0.9, 0.03, 0.1
+		hh.Sub(h, "with-transforms-"+mode, h.N(8000, 30000), func(rt *rapid.T) model.Case { return model.GenCase(rt, tcfg) }, func(c model.Case) hh.Verdict {
+			c.Root.Number()
+			if !hasCatch(c.Root) {
+				return hh.Verdict{Skip: "no-catching-node"}
+			}
+			out, bad, skip := conform(c, 2, false, true, false)
+			if skip != "" {
+				return hh.Verdict{Skip: skip}
+			}
+			if bad != "" {
+				return hh.Fail("catching nodes among PostTransforms: %s", bad)
+			}
+			caught, posts := false, false
+			for _, co := range out.spec.Catches {
+				caught = caught || co.Caught
+			}
+			c.Root.Walk(func(n *model.Node) { posts = posts || len(n.Posts) > 0 })
+			return hh.Verdict{Nontrivial: caught && posts && len(out.spec.Issues) == 0, Classes: []string{"mode:" + mode}}
+		})
 	}
 }
